@@ -1,0 +1,91 @@
+//go:build verif
+// +build verif
+
+package tcp
+
+import (
+	tcpip "github.com/brewlin/net-protocol/protocol"
+)
+
+// VerifSnapshot is a read-only projection of a TCP endpoint for conformance
+// harnesses (build tag verif). It adds no code to any existing path.
+type VerifSnapshot struct {
+	State       int // endpointState
+	HardError   string
+	SndUna      uint32
+	SndNxt      uint32
+	SndNxtList  uint32
+	SndWnd      int
+	SndWndScale int
+	Cwnd        int
+	Ssthresh    int
+	Outstanding int
+	DupAck      int
+	FRActive    bool
+	RTOms       int64
+	ResendArmed bool
+	KeepArmed   bool
+	SndClosed   bool // write side shut down by the application
+	SndBufUsed  int
+	SndQueued   int // bytes accepted by Write and not yet handed to the sender
+	Unsent      bool
+	RcvNxt      uint32
+	RcvAcc      uint32
+	RcvWndScale int
+	RcvClosed   bool
+	RcvBufUsed  int
+	RcvBufSize  int
+	Pending     int // out-of-order segments parked
+	SegQueue    bool
+	MaxPayload  int
+	Worker      bool
+}
+
+// VerifState returns a snapshot of ep if its protocol work mutex is free (the
+// protocol goroutine is idle), otherwise ok is false.
+func VerifState(ep tcpip.Endpoint) (snap VerifSnapshot, ok bool) {
+	e, isTCP := ep.(*endpoint)
+	if !isTCP {
+		return snap, false
+	}
+	if !e.workMu.TryLock() {
+		return snap, false
+	}
+	defer e.workMu.Unlock()
+	e.mu.RLock()
+	snap.State = int(e.state)
+	if e.hardError != nil {
+		snap.HardError = e.hardError.String()
+	}
+	snap.Worker = e.workerRunning
+	e.mu.RUnlock()
+	e.sndBufMu.Lock()
+	snap.SndClosed = e.sndClosed
+	snap.SndBufUsed = e.sndBufUsed
+	snap.SndQueued = int(e.sndBufInQueue)
+	e.sndBufMu.Unlock()
+	e.rcvListMu.Lock()
+	snap.RcvClosed = e.rcvClosed
+	snap.RcvBufUsed = e.rcvBufUsed
+	snap.RcvBufSize = e.rcvBufSize
+	e.rcvListMu.Unlock()
+	snap.SegQueue = !e.segmentQueue.empty()
+	e.keepalive.Lock()
+	snap.KeepArmed = e.keepalive.timer.enabled()
+	e.keepalive.Unlock()
+	if s := e.snd; s != nil {
+		snap.SndUna, snap.SndNxt, snap.SndNxtList = uint32(s.sndUna), uint32(s.sndNxt), uint32(s.sndNxtList)
+		snap.SndWnd, snap.SndWndScale = int(s.sndWnd), int(s.sndWndScale)
+		snap.Cwnd, snap.Ssthresh, snap.Outstanding, snap.DupAck = s.sndCwnd, s.sndSsthresh, s.outstanding, s.dupAckCount
+		snap.FRActive = s.fr.active
+		snap.RTOms = int64(s.rto / 1e6)
+		snap.ResendArmed = s.resendTimer.enabled()
+		snap.Unsent = s.writeNext != nil
+		snap.MaxPayload = s.maxPayloadSize
+	}
+	if r := e.rcv; r != nil {
+		snap.RcvNxt, snap.RcvAcc, snap.RcvWndScale = uint32(r.rcvNxt), uint32(r.rcvAcc), int(r.rcvWndScale)
+		snap.Pending = r.pendingRcvdSegments.Len()
+	}
+	return snap, true
+}
